@@ -95,3 +95,42 @@ def echconn_slice(ctx, select, cfgs=("MCEchConn_q.cfg",), label="slice"):
     c06.replay(ctx, cases, label)
     ctx.notes["echconn_histories"] = ctx.notes.get("echconn_histories", 0) + len(cases)
     ctx.sample({"echconn_history": cases[len(cases) // 2]})
+
+
+def structural(ctx, sample=None):
+    """Structural damage at every length-prefixed node (ops structOuter/structInner of EchHello.tla)."""
+    r = ctx.tlc("MCEchHello", "MCEchHello_c08.cfg", timeout=600, name="c08")
+    if r["violated"] or not r["ok"]:
+        raise vlib.Inconclusive("MCEchHello_c08 failed")
+    ctx.states += r["distinct"]
+    ctx.transitions += r["generated"]
+    cases = vlib.parse_emitted(r["out"], "CASE")
+    if sample and len(cases) > sample:
+        rnd = random.Random(ctx.seed)
+        outer = [c for c in cases if c["op"] == "structOuter"]
+        inner = [c for c in cases if c["op"] == "structInner"]
+        rnd.shuffle(outer)
+        rnd.shuffle(inner)
+        cases = outer[:sample // 2] + inner[:sample // 2]
+        ctx.exhaustive = False
+    f_in, f_out = ctx.path("struct.ndjson"), ctx.path("struct-obs.ndjson")
+    vlib.write_ndjson(f_in, cases)
+    rc, out = ctx.go_test("^TestEchStruct$", env={"VH_IN": f_in, "VH_OUT": f_out}, timeout=2400)
+    res = vlib.read_ndjson(f_out)
+    summ = [x for x in res if x.get("summary")]
+    if not summ:
+        raise vlib.Inconclusive("structural driver did not finish (rc=%d):\n%s" % (rc, out[-2000:]))
+    ctx.evaluations += summ[0]["evaluations"]
+    ctx.traces += summ[0]["evaluations"]
+    ctx.notes["structural"] = summ[0]
+    for c in cases:
+        ctx.distinct.add("struct:" + json.dumps([c["op"], c["onm"], c["inm"], c["run"]]))
+    for x in res:
+        if x.get("summary"):
+            continue
+        c = x.get("case") or {}
+        ctx.traces -= 1
+        ctx.violation("struct:%s:%s%s:%s:node%s:%s" % (c.get("op"), c.get("onm"), c.get("inm"), c.get("run"), x.get("node"), x.get("kind")),
+                      "structural fault %s at node %s of %s hello %s%s run=%s: %s" % (x.get("kind"), x.get("node"), c.get("op"), c.get("onm"), c.get("inm"), c.get("run"), x["diff"]),
+                      x)
+    ctx.sample({"structural_base_case": {k: cases[0][k] for k in ("onm", "inm", "run", "op")}, "nodes_x_kinds_evaluated": summ[0]["evaluations"]})
